@@ -258,6 +258,49 @@ class Gen:
                      'optimize': self.rng.random() < 0.5, 'reset_start': self.rng.random() < 0.5,
                      'reset_end': self.rng.random() < 0.5})
 
+    def g_settings_at(self):
+        r = self.pick()
+        if r:
+            n = self.length(r)
+            self.do({'op': 'ansi_settings_at', 'r': r, 'i': self.rng.choice([-1, 0, n - 1, n, n + 3, -n, self.rng.randint(-2, n + 1)])})
+
+    def g_find_settings(self):
+        r = self.pick()
+        if not r:
+            return
+        present = sorted({tuple(self.m.texts.rows[t - 1]) for row in self.m.snaps[r]['s'] for (_, t) in row})
+        cands = [(f, d) for (f, d) in PAL_CORE + PAL_MORE if all(tuple(map(ord, x)) in present for x in d)]
+        x = self.rng.random()
+        if cands and x < 0.75:
+            k = 1 if self.rng.random() < 0.7 else 2
+            ch = [self.rng.choice(cands) for _ in range(k)]
+            forms, S = [c[0] for c in ch], [t for c in ch for t in c[1]]
+        elif x < 0.9:
+            forms, S = self.settings()
+        else:
+            forms, S = [], []
+        self.do({'op': 'find_settings', 'r': r, 'sets': forms, 'S': S, 'start': self.bound(r, False) if self.rng.random() < 0.7 else 0,
+                 'end': self.bound(r), 'reverse': self.rng.random() < 0.4})
+
+    PATTERNS_PLAIN = ['a', 'b', 'ab', 'A', '-', ' ', 'a.', '.', 'b*', '(', 'ba', 'aa', '']
+    PATTERNS_RE = ['a', 'a*', 'b+', '[ab]', 'a|b', '.', '', 'a?b', '(a)(b)?', 'b$', '^a', '[^a]+', 'a{2}', r'\\b', 'A']
+
+    def g_matching(self):
+        r = self.pick()
+        if not r or not self.room(3):
+            return
+        regex = self.rng.random() < 0.5
+        pat = self.rng.choice(self.PATTERNS_RE if regex else self.PATTERNS_PLAIN)
+        un = self.rng.random() < 0.45
+        o = {'op': 'unformat_matching' if un else 'format_matching', 'r': r, 'pat': pat, 'regex': regex,
+             'match_case': self.rng.random() < 0.5, 'count': self.rng.choice([-1, -1, -1, 0, 1, 2, 3])}
+        if un and self.rng.random() < 0.4:
+            o['all'] = True
+            o['explicit_none'] = self.rng.random() < 0.5
+        else:
+            o['sets'], o['S'] = self.settings()
+        self.do(o)
+
     def g_render8(self):
         r = self.pick()
         if not r:
@@ -321,6 +364,8 @@ def weights(**over):
 PROFILES = {
     'C01': weights(render=0, render8=1.5, apply=4, remove=2, slice=1.5, add=1.5, iadd=1.5, copy=0.3),
     'C03': weights(render=0, reparse=1.2, simplify=1.2, apply=4, remove=2),
+    'C16': weights(matching=5, apply=3, remove=1, slice=0.5, render=0.2),
+    'C17': weights(find_settings=5, settings_at=2.5, apply=4, remove=2, slice=0.5, add=0.7, iadd=0.7),
     'C04': weights(slice=5, index=2, clip=2, iter=0.6, apply=3, remove=1.5),
     'C05': weights(add=4, iadd=4, join=2, split_rejoin=2, slice=2),
     'C06': weights(apply=6, remove=1.5, slice=1),
